@@ -21,7 +21,9 @@ Record realm_wf (r : realm) : Prop := mkRealmWf {
   rw_sess_att : forall sid, nget (b_sess (r_broker r)) sid <> None -> client r sid;
   rw_test_att : forall sid, nget (r_testaments r) sid <> None -> client r sid;
   rw_test_keys : NoDup (map fst (r_testaments r));
-  rw_cr_nonempty : forall sid ids, nget (d_callee_regs (r_dealer r)) sid = Some ids -> ids <> []
+  rw_cr_nonempty : forall sid ids, nget (d_callee_regs (r_dealer r)) sid = Some ids -> ids <> [];
+  (* the meta session never calls *)
+  rw_calls_nometa : forall c x, cget (d_calls (r_dealer r)) c = Some x -> fst c <> meta_id
 }.
 
 (** the id generators stay below [k] (ids wrap around at 2^53; the invariant
@@ -174,7 +176,7 @@ Proof.
 Qed.
 
 (** ** Frame lemmas: what [dealer_remove_session] does to the per-callee table *)
-From Nexus Require Import Router.DealerRemove.
+From Nexus Require Import Router.DealerWfCalls Router.DealerWfRegs Router.DealerRemove.
 
 Lemma remove_callee_reg_fold_cr : forall sid regs d mp,
     d_callee_regs (fst (fold_left (remove_callee_reg sid) regs (d, mp))) = d_callee_regs d.
@@ -223,6 +225,22 @@ Proof.
   rewrite E3, E2. cbn [d_callee_regs d_set_callee_regs]. now rewrite E1.
 Qed.
 
+Lemma drs_calls_sub : forall lookup lk d sid, dealer_wf lookup d ->
+    forall c x, cget (d_calls (fst (fst (dealer_remove_session lk d sid)))) c = Some x -> cget (d_calls d) c = Some x.
+Proof.
+  intros lookup lk d sid WF c x. rewrite drs_unfold. cbv zeta. cbn [fst].
+  pose proof WF as [A B C D E].
+  destruct (unreg_all_wf lookup lookup d sid A B C (fun _ _ H => H)) as (_ & _ & _ & _ & S2 & _).
+  assert (W2 : calls_core (unreg_all d sid)).
+  { eapply calls_core_ext; [|exact D]. destruct S2 as (E1 & E2 & E3 & E4 & E5). repeat split; assumption. }
+  destruct (cs_fold_mono lk sid (d_invs (unreg_all d sid)) (unreg_all d sid) [] W2) as (W3 & S3 & _).
+  cbv zeta in W3, S3.
+  destruct (own_fold_mono sid (d_calls (fst (fold_left (cancel_served lk sid) (d_invs (unreg_all d sid)) (unreg_all d sid, []))))
+                          (fst (fold_left (cancel_served lk sid) (d_invs (unreg_all d sid)) (unreg_all d sid, []))) W3) as (_ & S4).
+  intros H. apply (sh_calls _ _ S4) in H. apply (sh_calls _ _ S3) in H.
+  destruct S2 as (E1 & _). rewrite E1 in H. exact H.
+Qed.
+
 Lemma cr_nonempty_ndel : forall l sid, cr_nonempty l -> cr_nonempty (ndel l sid).
 Proof. intros l sid H x ids. rewrite ngd. destruct (N.eqb x sid); [discriminate|apply H]. Qed.
 
@@ -232,13 +250,19 @@ Lemma wf_set_broker : forall r b pg,
     realm_wf r -> broker_wf b -> (forall x, nget (b_sess b) x <> None -> client r x) ->
     realm_wf (r_set_broker r b pg).
 Proof.
-  intros r b pg [A B C D E F G H I] Wb Hs. constructor; cbn [r_set_broker r_meta r_clients r_broker r_dealer r_testaments]; auto.
+  intros r b pg [A B C D E F G H I J] Wb Hs. constructor; cbn [r_set_broker r_meta r_clients r_broker r_dealer r_testaments]; auto.
 Qed.
 
+Definition calls_nometa (d : dealer) : Prop := forall c x, cget (d_calls d) c = Some x -> fst c <> meta_id.
+
+Lemma calls_nometa_sub : forall d d', calls_sub d d' -> calls_nometa d -> calls_nometa d'.
+Proof. intros d d' [S _] H c x Hc. eapply H. eapply S. exact Hc. Qed.
+
 Lemma wf_set_dealer : forall r d,
-    realm_wf r -> dealer_wf (lookup r) d -> cr_nonempty (d_callee_regs d) -> realm_wf (r_set_dealer r d).
+    realm_wf r -> dealer_wf (lookup r) d -> cr_nonempty (d_callee_regs d) -> calls_nometa d ->
+    realm_wf (r_set_dealer r d).
 Proof.
-  intros r d [A B C D E F G H I] Wd Hc. constructor; cbn [r_set_dealer r_meta r_clients r_broker r_dealer r_testaments]; auto.
+  intros r d [A B C D E F G H I J] Wd Hc Hn. constructor; cbn [r_set_dealer r_meta r_clients r_broker r_dealer r_testaments]; auto.
 Qed.
 
 Lemma ids_below_mono : forall k k' r, ids_below k r -> k <= k' -> ids_below k' r.
@@ -327,6 +351,8 @@ Proof.
   cbv zeta in D. destruct D as (D1 & D2 & D3 & D4 & D5 & D6 & D7).
   assert (Hcr : cr_nonempty (d_callee_regs (fst (fst (dealer_remove_session (lookup r2) (r_dealer r) sid))))).
   { rewrite drs_callee_regs. apply cr_nonempty_ndel. exact (rw_cr_nonempty r W). }
+  assert (Hnm : calls_nometa (fst (fst (dealer_remove_session (lookup r2) (r_dealer r) sid)))).
+  { intros c x Hc. apply (drs_calls_sub (lookup r) _ _ _ (rw_dealer r W)) in Hc. eapply (rw_calls_nometa r W); eauto. }
   change (r_dealer r2) with (r_dealer r).
   destruct (dealer_remove_session (lookup r2) (r_dealer r) sid) as [[d o1] mps]. cbn [fst] in *.
   change (r_broker (r_set_dealer r2 d)) with (r_broker r). change (r_pubgen (r_set_dealer r2 d)) with (r_pubgen r).
@@ -350,6 +376,7 @@ Proof.
       destruct (N.eqb_spec x sid); [congruence|]. apply client_del; [exact n|]. now apply (rw_test_att r W).
     + apply NoDup_ndel. apply (rw_test_keys r W).
     + exact Hcr.
+    + exact Hnm.
   - destruct I as (I1 & I2 & I3). unfold ids_below.
     cbn [r_broker r_dealer r_set_broker r_set_dealer r_set_testaments r_set_clients].
     split; [lia|]. split; [lia|].
@@ -372,4 +399,119 @@ Proof.
     split; [exact D6|].
     intros q inv Hi. destruct (D7 _ _ Hi) as (Q1 & Q2). split; [exact Q1|]. split; [|exact Q2].
     destruct (cw_inv _ (wf_calls _ _ D1) _ _ Hi) as (_ & ->). exact Q1.
+Qed.
+
+(** meta publications change only the history stores of the broker *)
+Lemma meta_publish_hist_only : forall r mp, realm_wf r ->
+    exists h, r_broker (fst (meta_publish r mp)) = b_set_hist (r_broker r) h.
+Proof.
+  intros r mp W. unfold meta_publish.
+  destruct (publish _ _ _ _ _ _ _ _ _ _ _) as [[b pg] o] eqn:P.
+  apply publish_hist_ext in P; [|apply (wf_core _ (rw_broker r W))].
+  destruct P as (E & _). exists (b_hist b). exact E.
+Qed.
+
+Lemma meta_publish_all_hist_only : forall mps r k, realm_wf r -> ids_below k r ->
+    exists h, r_broker (fst (meta_publish_all r mps)) = b_set_hist (r_broker r) h.
+Proof.
+  induction mps as [|mp mps IH]; intros r k W I.
+  - exists (b_hist (r_broker r)). cbn. destruct (r_broker r); reflexivity.
+  - rewrite meta_publish_all_cons. destruct (meta_publish_hist_only r mp W) as (h1 & E1).
+    destruct (meta_publish_wf r mp k W I) as [W1 I1].
+    destruct (meta_publish r mp) as [r1 o1]. cbn [fst] in *.
+    destruct (IH r1 k W1 I1) as (h2 & E2). destruct (meta_publish_all r1 mps) as [r2 o2]. cbn [fst] in *.
+    exists h2. rewrite E2, E1. reflexivity.
+Qed.
+
+(** ** [leave] preserves the invariant; afterwards the leaver is in no table *)
+Definition nowhere (r : realm) (sid : N) : Prop :=
+  find_session (r_clients r) sid = None /\ nget (r_testaments r) sid = None /\
+  nget (b_sess (r_broker r)) sid = None /\
+  (forall id s, nget (b_subs (r_broker r)) id = Some s -> ~ In sid (sub_subs s)) /\
+  nget (d_callee_regs (r_dealer r)) sid = None /\
+  (forall id rg, nget (d_regs (r_dealer r)) id = Some rg -> ~ In sid (reg_callees rg)) /\
+  (forall c x, cget (d_calls (r_dealer r)) c = Some x -> fst c <> sid /\ x <> sid) /\
+  (forall c q, cget (d_bycall (r_dealer r)) c = Some q -> fst c <> sid /\ fst q <> sid) /\
+  (forall q inv, cget (d_invs (r_dealer r)) q = Some inv ->
+                 fst q <> sid /\ inv_callee inv <> sid /\ fst (inv_call inv) <> sid).
+
+Theorem leave_wf : forall r sid k,
+    realm_wf r -> ids_below k r ->
+    realm_wf (fst (leave r sid)) /\ ids_below k (fst (leave r sid)) /\
+    (client r sid -> nowhere (fst (leave r sid)) sid).
+Proof.
+  intros r sid k W I.
+  destruct (find_session (r_clients r) sid) as [s|] eqn:F.
+  - assert (C : client r sid) by (unfold client; congruence).
+    rewrite (leave_event_order r sid s F).
+    pose proof (leave_core_wf r sid k W I C) as L. cbv zeta in L.
+    destruct (leave_core r sid) as [[r4 o12] mps]. cbn [fst] in L.
+    destruct L as (W4 & I4 & N4).
+    pose proof (meta_publish_all_wf (mps ++ testament_pubs r sid ++ [on_leave_pub s]) r4 k W4 I4) as [W5 I5].
+    pose proof (meta_publish_all_frame (mps ++ testament_pubs r sid ++ [on_leave_pub s]) r4) as Fr.
+    destruct (meta_publish_all_hist_only (mps ++ testament_pubs r sid ++ [on_leave_pub s]) r4 k W4 I4) as (h & Eh).
+    destruct (meta_publish_all r4 _) as [r5 o3]. cbn [fst] in *.
+    split; [exact W5|]. split; [exact I5|]. intros _.
+    destruct Fr as (_ & F2 & _ & F4 & F5 & _). unfold nowhere. rewrite F2, F4, F5, Eh.
+    cbn [b_sess b_subs b_set_hist]. exact N4.
+  - rewrite (leave_absent r sid F). cbn [fst]. split; [exact W|]. split; [exact I|].
+    intros C. exfalso. apply C. exact F.
+Qed.
+
+Lemma kill_sessions_wf : forall sids r g k,
+    realm_wf r -> ids_below k r ->
+    realm_wf (fst (kill_sessions r sids g)) /\ ids_below k (fst (kill_sessions r sids g)).
+Proof.
+  induction sids as [|sid sids IH]; intros r g k W I; [auto|].
+  rewrite kill_sessions_cons. destruct (leave_wf r sid k W I) as (W1 & I1 & _).
+  destruct (leave r sid) as [r1 o1]. cbn [fst] in *.
+  destruct (IH r1 g k W1 I1) as [W2 I2]. destruct (kill_sessions r1 sids g) as [r2 o2]. auto.
+Qed.
+
+(** ** Joining *)
+Lemma find_session_app : forall l s x,
+    find_session (l ++ [s]) x =
+    match find_session l x with Some y => Some y | None => if N.eqb (s_id s) x then Some s else None end.
+Proof.
+  induction l as [|y l IH]; intros s x; cbn; [reflexivity|].
+  destruct (N.eqb (s_id y) x); [reflexivity|apply IH].
+Qed.
+
+Definition op_ok (o : op) : Prop :=
+  match o with OJoin sid _ _ => sid <= max_idN | _ => True end.
+
+Lemma join_wf : forall r sid l h k,
+    realm_wf r -> ids_below k r -> sid <= max_idN ->
+    realm_wf (fst (join r sid l h)) /\ ids_below k (fst (join r sid l h)).
+Proof.
+  intros r sid l h k W I Hsid. unfold join.
+  destruct (negb (has_role h) || is_some (lookup r sid)) eqn:G; [auto|].
+  apply orb_false_iff in G. destruct G as [_ G].
+  assert (Hl : lookup r sid = None) by (destruct (lookup r sid); [discriminate|reflexivity]).
+  assert (Hm : sid <> meta_id).
+  { intros ->. unfold lookup in Hl. rewrite N.eqb_refl in Hl. discriminate. }
+  assert (Hf : find_session (r_clients r) sid = None).
+  { unfold lookup in Hl. destruct (N.eqb_spec sid meta_id); [contradiction|exact Hl]. }
+  set (s := mkSession sid l h (join_details sid l h) 0).
+  set (r1 := r_set_clients r (r_clients r ++ [s])).
+  assert (Hle : lookup_le (lookup r) (lookup r1)).
+  { intros x sx E. exists sx. split; [|lia]. unfold lookup in *. cbn [r1 r_meta r_clients r_set_clients].
+    destruct (N.eqb x meta_id); [exact E|]. rewrite find_session_app, E. reflexivity. }
+  assert (Hc : forall x, client r x -> client r1 x).
+  { intros x C. unfold client in *. cbn [r1 r_clients r_set_clients]. rewrite find_session_app.
+    destruct (find_session (r_clients r) x); [discriminate|contradiction]. }
+  assert (W1 : realm_wf r1).
+  { destruct W as [A B C D E F' G' H' I' J']. constructor; cbn [r1 r_set_clients r_meta r_clients r_broker r_dealer r_testaments]; auto.
+    - rewrite find_session_app, B. cbn [s s_id]. destruct (N.eqb_spec sid meta_id); [contradiction|reflexivity].
+    - intros x Hx. apply in_app_or in Hx. destruct Hx as [Hx|[<-|[]]]; [auto|exact Hsid].
+    - eapply dealer_wf_lookup_le; [exact Hle|exact E]. }
+  assert (I1 : ids_below k r1).
+  { destruct I as (I1 & I2 & I3). repeat split; auto.
+    intros x sx E. unfold lookup in E. cbn [r1 r_meta r_clients r_set_clients] in E.
+    destruct (N.eqb x meta_id) eqn:Ex.
+    - apply (I3 x sx). unfold lookup. now rewrite Ex.
+    - rewrite find_session_app in E. destruct (find_session (r_clients r) x) as [y|] eqn:Fy.
+      + inversion E; subst. apply (I3 x sx). unfold lookup. now rewrite Ex.
+      + destruct (N.eqb (s_id s) x); inversion E; subst. cbn. lia. }
+  change (r_cfg r) with (r_cfg r1). apply meta_publish_wf; assumption.
 Qed.
